@@ -58,6 +58,7 @@ def gen_cases(tier, seed):
     cases += [{"id": f"c09-raw-{seed}-{i}", "seed": seed * 6151 + 5000 + i, "kind": "raw",
                "n": 12 if tier == "quick" else 40} for i in range(n)]
     cases.append({"id": "c09-seed-confirm-race", "seed": seed, "kind": "seed"})
+    cases.append({"id": "c09-seed-takeover-race", "seed": seed, "kind": "takeover"})
     cases += example_cases("c09", tier, seed)
     nchunks = 8 if tier == "quick" else 64
     for k in range(nchunks):
@@ -297,6 +298,47 @@ def run_case(case):
             counters["evaluations"] += 1
         os.chdir("..")
         shutil.rmtree("s0", ignore_errors=True)
+    elif case["kind"] == "takeover":
+        os.makedirs("s1")
+        os.chdir("s1")
+        for p in ("a/b/c", "o.txt"):
+            H.write_file(p, "x\n")
+        # Two steps that their creator leaves detached while they run (it fails): OWNER amends
+        # a/b/c as its output and ends; TAKER declares the same path (as part of a static tree, as a
+        # volatile output, as the output of another step) while the director hashes OWNER's outputs
+        # in a thread that is slow to start.
+        takers = [
+            {"a": "raw", "name": "declare_static", "args": [["a/"], [], []]},
+            {"a": "raw", "name": "define_step",
+             "args": ["do [] #vol", [], [], [], ["a/b/c"], ".", 31, {}, False, None, None]},
+            {"a": "raw", "name": "define_step",
+             "args": ["do [] #out", [], [], ["a/b/c"], [], ".", 31, {}, False, None, None]},
+            {"a": "raw", "name": "amend_step", "args": [[], [], [], ["a/b/c"]]},
+        ]
+        for rep in range(32):
+            owner = [{"a": "raw", "name": "amend_step", "args": [[], [], ["a/b/c"], []]},
+                     {"a": "await", "key": "failed"}, {"a": "signal", "key": "go"}]
+            taker = [{"a": "await", "key": "go"}, {"a": "sleep", "s": 0.002 + 0.004 * (rep % 8)},
+                     takers[rep % len(takers)], {"a": "sleep", "s": 0.05}]
+            mid = [{"a": "step", "cmd": "do " + json.dumps(owner), "need": "PLAN"},
+                   {"a": "step", "cmd": "do " + json.dumps(taker), "need": "PLAN"},
+                   {"a": "sleep", "s": 0.02}, {"a": "fail", "rc": 2}]
+            waker = [{"a": "sleep", "s": 0.06}, {"a": "signal", "key": "failed"}, {"a": "sleep", "s": 0.1}]
+            plan = [{"a": "step", "cmd": "do " + json.dumps(mid), "need": "PLAN"},
+                    {"a": "step", "cmd": "do " + json.dumps(waker)}]
+            witness["plan"] = plan
+            H.write_plan("plan.py", plan)
+            shutil.rmtree(".stepup", ignore_errors=True)
+            mon = monitor()
+            b = H.run_build({"njob": 4, "keep_going": True,
+                             "thread_delay": {"p": 1.0, "max": 0.04, "seed": case["seed"] * 100 + rep}},
+                            ctl=H.Controller("free", rep), monitors=[mon], timeout=60)
+            collect(mon, b, f"{case['id']} repetition {rep}")
+            counters["evaluations"] += 1
+            counters["takeover_attempts"] = counters.get("takeover_attempts", 0) + \
+                sum(1 for e in b.events if e["type"] == "raw_done" and e.get("ok") and e["name"] != "amend_step")
+        os.chdir("..")
+        shutil.rmtree("s1", ignore_errors=True)
     elif case["kind"] == "hist":
         for h in range(3):
             sub = f"h{h}"
